@@ -236,6 +236,17 @@ def h_combiner(H, n, training, hard, gumbel):
         rep = comb.summary()['supernet_branches']
         H.ensure('combiner-summary:reports-the-sampled-coefficients',
                  H.and_(*[H.eq(rep['branch_%d' % i]['alpha'], th2[i]) for i in range(n)]))
+        # the coefficients move (optimizer step, load_state_dict) and summary() is read before the next forward pass: it still
+        # names the arg-max alternative of the CURRENT raw coefficients, the one export() materialises
+        alpha2 = H.tensor('alpha_after_step', (n,))
+        al2 = H.elements(alpha2)
+        _no_ties(H, al2)
+        H.set_(comb.alpha, alpha2)
+        rep2 = comb.summary()['supernet_branches']
+        for i in range(n):
+            H.ensure('combiner-summary:largest-reported-coefficient-is-the-current-argmax',
+                     H.implies(_is_max(H, al2, i), H.and_(*[H.gt(rep2['branch_%d' % i]['alpha'], rep2['branch_%d' % j]['alpha']) for j in range(n) if j != i])))
+            H.ensure('combiner-summary:agrees-with-best_layer_index', H.implies(_is_max(H, al2, i), H.eq(comb.best_layer_index(), i)))
 
 
 PROPERTY = {
